@@ -20,6 +20,7 @@ var regimes = []regime{
 	{"default", `{ print NR, NF, length($0), $1 } END { print NR }`, "", false},
 	{"default-getline", `BEGIN { while ((getline line) > 0) n += length(line); print n, NR; getline; getline x; print NR }`, "", false},
 	{"byte-semicolon", `BEGIN { RS = ";" } { print NR, NF, length($0), RT } END { print NR }`, "", false},
+	{"byte-non-utf8", `BEGIN { RS = "\xc3" } { print NR, NF, length($0), length(RT) } END { print NR }`, "", false},
 	{"byte-cr", `BEGIN { RS = "\r" } { print NR, NF, length($0), length(RT) } END { print NR }`, "", false},
 	{"paragraph", `BEGIN { RS = "" } { print NR, NF, length($0), length(RT), $1 } END { print NR }`, "", false},
 	{"paragraph-fs", `BEGIN { RS = ""; FS = "," } { print NR, NF, $1, $NF; getline x; print length(x) } END { print NR }`, "", false},
